@@ -15,6 +15,7 @@ import os
 from ..model import norm, walk_no_nested, iter_child_stmts, callee
 from .. import sharedstate as ss
 from ..cfg import CFG
+from .. import pathcond
 
 REF = os.path.join(os.path.dirname(os.path.dirname(os.path.abspath(__file__))), 'callsigs.json')
 
@@ -378,7 +379,8 @@ def if_chain_pairs(f):
     for blk in _blocks_all(f.body):
         for a, b in zip(blk, blk[1:]):
             if isinstance(a, ast.If) and isinstance(b, ast.If):
-                out.append(['sib', norm(a.test), norm(b.test)])
+                # (a second `if` after an `if` whose body always leaves is reached exactly when an `elif` would be)
+                out.append(['elif' if not a.orelse and pathcond.always_leaves(a.body) else 'sib', norm(a.test), norm(b.test)])
     for x in walk_no_nested(f):
         if isinstance(x, ast.If) and len(x.orelse) == 1 and isinstance(x.orelse[0], ast.If):
             out.append(['elif', norm(x.test), norm(x.orelse[0].test)])
@@ -445,12 +447,22 @@ def _operands(e, op):
     return [norm(e)]
 
 
+GUARDEFF_REF = os.path.join(os.path.dirname(os.path.dirname(os.path.abspath(__file__))), 'guardeff.json')
+
+
+def guard_effective(f):
+    """[(test text, formula under which the guarded body runs)] for the if / while statements of f: the test AND
+    the condition under which the statement is reached (enclosing tests, earlier guard clauses)"""
+    return sorted(([norm(st.test), pathcond.to_json(e)] for st, e in pathcond.effective(f)), key=lambda x: (x[0], json.dumps(x[1], sort_keys=True)))
+
+
 def guard_conjunct_rule(ctx, rule, callers=None):
     """a condition of the pinned tree that disappears while a new condition appears which is the old one with a
     conjunct/disjunct added or taken away: the guarded statements now run for fewer (or more) cases"""
     if not os.path.exists(GUARDS_REF):
         return 0
     ref = json.load(open(GUARDS_REF))
+    effref = json.load(open(GUARDEFF_REF)) if os.path.exists(GUARDEFF_REF) else {}
     n = 0
     for m, q, f in ctx.repo.functions():
         name = '%s.%s' % (m.name, q)
@@ -469,6 +481,25 @@ def guard_conjunct_rule(ctx, rule, callers=None):
                 new.append((t, node))
         if not gone or not new:
             continue
+        # the same control flow spelled differently (nested / joined with `and`, a conjunct left out where an earlier
+        # guard clause already established it): the body runs under an equivalent condition - not a changed guard
+        cur_eff = {}
+        for st, e in pathcond.effective(f):
+            cur_eff[id(st.test)] = e
+        ref_eff = {}
+        for t, e in effref.get(name, []):
+            ref_eff.setdefault(t, []).append(pathcond.from_json(e))
+        for old in list(gone):
+            for t, node in list(new):
+                e_new = cur_eff.get(id(node))
+                if e_new is None:
+                    continue
+                hit = [e for e in ref_eff.get(old, []) if pathcond.equivalent(e, pathcond._strip(e_new)) is True]
+                if hit:
+                    ref_eff[old].remove(hit[0])
+                    gone.remove(old)
+                    new.remove((t, node))
+                    break
         for old in gone:
             try:
                 old_node = ast.parse(old, mode='eval').body
@@ -562,6 +593,19 @@ def call_stmt_guards(f):
     return {t: g[0] for t, g in seen.items() if len(g) == 1}
 
 
+STMTREACH_REF = os.path.join(os.path.dirname(os.path.dirname(os.path.abspath(__file__))), 'stmtreach.json')
+
+
+def call_stmt_reach(f):
+    """{statement text: formula} - the condition under which each call statement that occurs once in f is reached"""
+    r = pathcond.reach(f)
+    seen = {}
+    for st in iter_child_stmts(f.body):
+        if isinstance(st, ast.Expr) and isinstance(st.value, ast.Call) and id(st) in r:
+            seen.setdefault(norm(st), []).append(pathcond.to_json(r[id(st)]))
+    return {t: g[0] for t, g in seen.items() if len(g) == 1}
+
+
 def stmt_guard_rule(ctx, rule, callers=None):
     """a call statement that exists once on the pinned tree and still exists keeps its set of enclosing conditions:
     an added condition makes a previously unconditional step optional (directory creation, handle refresh ...), a
@@ -569,6 +613,7 @@ def stmt_guard_rule(ctx, rule, callers=None):
     if not os.path.exists(STMTGUARDS_REF):
         return 0
     ref = json.load(open(STMTGUARDS_REF))
+    reachref = json.load(open(STMTREACH_REF)) if os.path.exists(STMTREACH_REF) else {}
     n = 0
     for m, q, f in ctx.repo.functions():
         name = '%s.%s' % (m.name, q)
@@ -577,12 +622,18 @@ def stmt_guard_rule(ctx, rule, callers=None):
         if callers is not None and not any(name == c or name.startswith(c + '.') or c == m.name for c in callers):
             continue
         cur = call_stmt_guards(f)
+        cur_reach = call_stmt_reach(f)
         all_tests = set(guard_texts(f))
         for t, g in ref[name].items():
             if t not in cur:
                 continue
             now = cur[t]
             if now == g:
+                n += 1
+                continue
+            # the same conditions spelled differently (else-arm / `continue` and dedent, nested / joined, test turned round)
+            if t in reachref.get(name, {}) and t in cur_reach and \
+                    pathcond.equivalent(pathcond.from_json(reachref[name][t]), pathcond.from_json(cur_reach[t])) is True:
                 n += 1
                 continue
             added = [x for x in now if x not in g]
